@@ -14,7 +14,11 @@ styles = ["Prefer a change whose effect depends on a particular configuration or
 "Prefer a change that touches two cooperating places, each of which looks fine on its own.",
 "Prefer a change in how one API path forwards, copies or transforms its inputs for another (a less-travelled entry point into the anchored mechanism).",
 "Prefer a change that only matters for state left behind by an earlier operation (a cache, a pooled buffer, an in-memory object that is reused, a record written by an older call).",
-"Prefer a change at a boundary: a limit, a size, a time instant, an empty or maximal collection, the first or last element."]
+"Prefer a change at a boundary: a limit, a size, a time instant, an empty or maximal collection, the first or last element.",
+"Prefer a change in error handling: which error is returned, wrapped, compared (errors.Is / ==) or ignored, or what a clean-up on an error path does.",
+"Prefer a change that is only visible through a less used part of the library: the file or store-once back end, lookup by node ID, a helper in util/ or the root package, or an exported function the flows do not normally call in that way.",
+"Prefer a change in encoding, decoding or conversion: protobuf marshal / clone / merge, base64 / base58, PKIX / PKCS8 parsing, time and duration conversions, string / byte handling.",
+"Prefer a change whose effect depends on two operations running at the same time in one process, or on which of two values sharing memory is modified later (aliasing)."]
 plan = []
 for i in range(1, 21):
     p = f"C{i:02d}"
